@@ -15,10 +15,13 @@
 (* Pairs = <<structure, api>> ("compiler": AccelerationEval + SPHCompiler  *)
 (* without integrator; "stepper": the same with an integrator whose        *)
 (* stepper ProbeStep for pa_d has stage1(d_idx, d_x, d_au, dt);            *)
-(* "evaluator": SPHEvaluator), with one fault:                             *)
-(*   none | one name removed from one array | the dest, the last source or *)
-(*   the stepper's array misspelt (pa_zz)  [Combo: a removal AND a         *)
-(*   misspelling]                                                          *)
+(* "evaluator": SPHEvaluator); part Dup: SEVERAL INSTANCES of ProbeA on    *)
+(* pa_d with different sources (DupOpts), structure "iterated" = sub-      *)
+(* groups of an iterated group; part Multi: an integrator over 2-3 arrays  *)
+(* with a stepper class each, given in the orders StepOrders.  One fault:  *)
+(*   none | one name removed from one array | the dest or the last source  *)
+(*   of one instance of ProbeA, or one stepper's array, misspelt (pa_zz)   *)
+(*   [Combo: a removal AND a misspelling]                                  *)
 (* The removed name ranges (Wide) over every name some role of the case    *)
 (* needs plus two that nothing needs (y when unused, tag), on every array; *)
 (* or (not Wide) per array over what that array is asked for, the explicit *)
@@ -33,19 +36,24 @@
 (*                                                                         *)
 (* Invariants: Functional (the step-wise machine computes M_Outcome, the   *)
 (* functional model used for trace validation); Contract (the statement,   *)
-(* no masking): expected to FAIL for Variant = "explicit" - TLC finds the  *)
-(* discrepancy by itself - and to hold for "closure"; ContractOrKnown:     *)
-(* every failure is explained by a finding of K.                           *)
+(* no masking): holds for Variant = "closure" (the code since the repair   *)
+(* of C20-symbol-requirements-unchecked) and is expected to FAIL - TLC     *)
+(* finds a violating case by itself - for "explicit" (the code before the  *)
+(* repair), "none", "dedup" and "laststepper" (seeded defects): the        *)
+(* universe is sensitive to each; ContractOrKnown: every failure is        *)
+(* explained by a finding of K.                                            *)
 (***************************************************************************)
 EXTENDS Setup, Json
 
 CONSTANTS SymSets, Shapes, SrcOpts, Pairs, Combo, Wide,
+          DupShapes, DupSyms, DupOpts, DupPairs,    \* part Dup
+          StepStructs, StepOrders,                  \* part Multi
           Variant,      \* mechanism that is run
           K,            \* ids of findings that may explain a failure
           Emit          \* TRUE: print every case (replayed into the code)
 
 \* named value sets (a .cfg holds no records / nested sets)
-SymsQ == {{}, {"VIJ"}, {"RHOIJ1"}, {"DWIJ"}, {"WJ"}, {"VIJ", "EPS"}}
+SymsQ == {{}, {"DWIJ"}, {"WJ"}, {"VIJ", "EPS"}}
 SymsC == {{}, {"VIJ"}, {"WIJ"}}
 SymsT == {{}} \cup {{y} : y \in DOMAIN SymTab}
          \cup {{"VIJ", "EPS"}, {"WI", "WJ", "RHOIJ"}}
@@ -64,6 +72,29 @@ PairsQ == {<<"flat", "compiler">>, <<"group", "stepper">>,
            <<"nested", "evaluator">>, <<"multistage", "stepper">>,
            <<"nested", "compiler">>}
 PairsC == PairsQ \cup {<<"flat", "evaluator">>}
+\* part Dup: the sources of the instances of ProbeA
+DupShapesQ == {Shape({}, {}, "loop"), Shape({"foo", "cnst"}, {"bar"}, "loop")}
+DupSymsQ == {{}, {"VIJ"}}
+DupSymsT == {{}, {"VIJ"}, {"WJ"}, {"RHOIJ1"}}
+DupOptsQ == {<<<<"pa_s1">>, <<"pa_s2">>>>, <<<<"pa_d", "pa_s2">>, <<"pa_s1">>>>}
+DupOptsT == DupOptsQ \cup {<<<<"pa_s1">>, <<"pa_s1", "pa_s2">>>>,
+                           <<<<"pa_s1">>, <<"pa_d">>, <<"pa_s2">>>>}
+DupPairsQ == {<<"flat", "compiler">>, <<"group", "compiler">>,
+              <<"iterated", "compiler">>, <<"nested", "evaluator">>}
+DupPairsT == DupPairsQ \cup {<<"multistage", "stepper">>,
+                             <<"iterated", "evaluator">>,
+                             <<"flat", "stepper">>}
+\* part Multi: the order in which the arrays are given to the integrator
+\* (the code checks in that order and generates in sorted order)
+StepStructsQ == {"flat"}
+StepStructsT == {"flat", "group", "multistage"}
+StepOrdersQ == {<<"pa_d", "pa_s1", "pa_s2">>, <<"pa_s2", "pa_d", "pa_s1">>,
+                <<"pa_s1", "pa_d">>}
+StepOrdersT == {<<"pa_d", "pa_s1", "pa_s2">>, <<"pa_d", "pa_s2", "pa_s1">>,
+                <<"pa_s1", "pa_d", "pa_s2">>, <<"pa_s1", "pa_s2", "pa_d">>,
+                <<"pa_s2", "pa_d", "pa_s1">>, <<"pa_s2", "pa_s1", "pa_d">>,
+                <<"pa_s1", "pa_d">>, <<"pa_d", "pa_s2">>}
+NoDup == {}
 KAll == KnownIds
 KNone == {}
 
@@ -83,18 +114,26 @@ ProbeA(sh, sy, so) == [name |-> "ProbeA", dest |-> "pa_d", sources |-> so,
                        meth |-> sh.meth]
 ProbeB == [name |-> "ProbeB", dest |-> "pa_d", sources |-> <<>>,
            d |-> {"m"}, s |-> {}, syms |-> {}, meth |-> "initialize"]
-ProbeStep == [array |-> "pa_d", name |-> "ProbeStep", d |-> {"x", "au"}]
-\* ProbeB first in the flat and nested structures, second otherwise
-EqOrder(st, a) == IF st \in {"flat", "nested"} THEN <<ProbeB, a>>
-                  ELSE <<a, ProbeB>>
+\* one stepper class per array, each with a name of its own
+StepFor(a) ==
+    CASE a = "pa_d" -> [array |-> a, name |-> "ProbeStep", d |-> {"x", "au"}]
+      [] a = "pa_s1" -> [array |-> a, name |-> "ProbeStepS", d |-> {"u", "bar"}]
+      [] a = "pa_s2" -> [array |-> a, name |-> "ProbeStepT", d |-> {"rho", "m"}]
+\* sos: the sources of the instances of ProbeA (one instance each, all on
+\* pa_d).  ProbeB comes first in the flat and nested structures, after the
+\* first instance otherwise.
+EqOrder(st, as) == IF st \in {"flat", "nested"} THEN <<ProbeB>> \o as
+                   ELSE <<Head(as), ProbeB>> \o Tail(as)
 FullArrays == [i \in 1 .. 3 |-> [name |-> ArrNames[i],
                                  props |-> Base \cup Consts,
                                  consts |-> Consts]]
-Mk(sh, sy, so, st, ap) ==
+\* ord: the arrays given to the integrator, in the order they are given
+Mk(sh, sy, sos, st, ap, ord) ==
     [api |-> IF ap = "evaluator" THEN "evaluator" ELSE "compiler",
      structure |-> st, arrays |-> FullArrays,
-     eqs |-> EqOrder(st, ProbeA(sh, sy, so)),
-     steppers |-> IF ap = "stepper" THEN <<ProbeStep>> ELSE <<>>]
+     eqs |-> EqOrder(st, [j \in DOMAIN sos |-> ProbeA(sh, sy, sos[j])]),
+     steppers |-> IF ap = "stepper" THEN [j \in DOMAIN ord |-> StepFor(ord[j])]
+                  ELSE <<>>]
 \* names worth removing: all that some role needs, and two nobody needs
 Relevant(c) ==
     UNION {Required(SymTab, c.eqs[i], r, TRUE) :
@@ -106,16 +145,19 @@ Remove(c, a, n) ==
         IF @[i].name = a THEN [@[i] EXCEPT !.props = @ \ {n},
                                            !.consts = @ \ {n}]
         ELSE @[i]]]
-IdxA(c) == CHOOSE i \in DOMAIN c.eqs : c.eqs[i].name = "ProbeA"
-Misspell(c, what) ==
-    LET i == IdxA(c)
-        n == Len(c.eqs[i].sources)
-    IN CASE what = "dest" -> [c EXCEPT !.eqs[i].dest = Wrong]
-         [] what = "source" -> [c EXCEPT !.eqs[i].sources[n] = Wrong]
-         [] what = "stepper" -> [c EXCEPT !.steppers[1].array = Wrong]
+\* the dest or the last source of ANY instance of ProbeA, the array of ANY
+\* stepper
+AIdx(c) == {i \in DOMAIN c.eqs : c.eqs[i].name = "ProbeA"}
+Misspell(c, w) ==
+    LET i == w[2]
+    IN CASE w[1] = "dest" -> [c EXCEPT !.eqs[i].dest = Wrong]
+         [] w[1] = "source" ->
+                [c EXCEPT !.eqs[i].sources[Len(c.eqs[i].sources)] = Wrong]
+         [] w[1] = "stepper" -> [c EXCEPT !.steppers[i].array = Wrong]
 Misspellings(c) ==
-    {"dest"} \cup (IF Len(c.eqs[IdxA(c)].sources) > 0 THEN {"source"} ELSE {})
-             \cup (IF Len(c.steppers) > 0 THEN {"stepper"} ELSE {})
+    {<<"dest", i>> : i \in AIdx(c)}
+    \cup {<<"source", i>> : i \in {j \in AIdx(c) : Len(c.eqs[j].sources) > 0}}
+    \cup {<<"stepper", i>> : i \in DOMAIN c.steppers}
 \* what array a is asked for by the equations and steppers applied to it
 NeededBy(c, a) ==
     UNION {Required(SymTab, c.eqs[i], "dest", TRUE) :
@@ -140,9 +182,22 @@ Faulty(c) ==
                     r \in Removals(c), w \in Misspellings(c)}
               ELSE {})
 
+\* Three parts.  Core: one instance of ProbeA, at most one stepper.  Dup:
+\* SEVERAL INSTANCES of ProbeA on pa_d with different sources (a removal
+\* from, or a misspelling of, a source of only the earlier / only the later
+\* instance).  Multi: an integrator over SEVERAL ARRAYS with a stepper class
+\* each, given in every order of StepOrders (exactly one array - first,
+\* middle or last given - lacks a name its stepper needs, or is misspelt).
+OneStepper == <<"pa_d">>
 Init ==
-    /\ \E sh \in Shapes, sy \in SymSets, so \in SrcOpts, pr \in Pairs :
-          case \in Faulty(Mk(sh, sy, so, pr[1], pr[2]))
+    /\ \/ \E sh \in Shapes, sy \in SymSets, so \in SrcOpts, pr \in Pairs :
+             case \in Faulty(Mk(sh, sy, <<so>>, pr[1], pr[2], OneStepper))
+       \/ \E sh \in DupShapes, sy \in DupSyms, sos \in DupOpts,
+             pr \in DupPairs :
+             case \in Faulty(Mk(sh, sy, sos, pr[1], pr[2], OneStepper))
+       \/ \E sy \in DupSyms, st \in StepStructs, ord \in StepOrders :
+             case \in Faulty(Mk(Shape({"foo"}, {}, "initialize"), sy,
+                                <<<<"pa_s1">>>>, st, "stepper", ord))
     /\ pc = "start" /\ stage = 0 /\ groups = <<>> /\ all = <<>> /\ ei = 0
     /\ out = NoRej
 
@@ -171,11 +226,26 @@ Flatten ==
 Cur == case.eqs[all[ei].i]
 Reject(r) == out' = r /\ pc' = "done"
 
+\* Seeded defects (Variant; they measure that the universe is sensitive to
+\* them, see Contract): "dedup" - an equation whose class and dest were
+\* seen earlier in this evaluator is not checked; "laststepper" - only the
+\* stepper given last has its properties checked.  Otherwise the repaired
+\* mechanism.
+NV == IF Variant \in {"explicit", "none"} THEN Variant ELSE "closure"
+SeenBefore ==
+    \E l \in 1 .. (ei - 1) :
+        /\ case.eqs[all[l].i].name = Cur.name
+        /\ case.eqs[all[l].i].dest = Cur.dest
+
 CheckDest ==
     /\ pc = "dest" /\ ei <= Len(all)
-    /\ LET r == M_CheckDest(case, Cur)
-       IN IF r.k # "pass" THEN Reject(r) ELSE pc' = "sources" /\ out' = out
-    /\ UNCHANGED <<case, stage, groups, all, ei>>
+    /\ IF Variant = "dedup" /\ SeenBefore
+       THEN pc' = "dest" /\ ei' = ei + 1 /\ out' = out
+       ELSE /\ ei' = ei
+            /\ LET r == M_CheckDest(case, Cur)
+               IN IF r.k # "pass" THEN Reject(r)
+                  ELSE pc' = "sources" /\ out' = out
+    /\ UNCHANGED <<case, stage, groups, all>>
 
 CheckSources ==
     /\ pc = "sources"
@@ -185,7 +255,7 @@ CheckSources ==
 
 CheckProps ==
     /\ pc = "props"
-    /\ LET r == M_CheckProps(SymTab, case, Cur, Variant)
+    /\ LET r == M_CheckProps(SymTab, case, Cur, NV)
        IN IF r.k # "pass" THEN Reject(r) /\ ei' = ei
           ELSE pc' = "dest" /\ ei' = ei + 1 /\ out' = out
     /\ UNCHANGED <<case, stage, groups, all>>
@@ -208,7 +278,11 @@ Helpers ==
 \* compile() -> get_code(): _check_arrays_for_properties per stepper method
 Codegen ==
     /\ pc = "codegen"
-    /\ LET r == M_StepperProps(case)
+    /\ LET n == Len(case.steppers)
+           r == IF Variant = "laststepper" /\ n > 1
+                THEN M_StepperProps([case EXCEPT
+                         !.steppers = <<case.steppers[n]>>])
+                ELSE M_StepperProps(case)
        IN out' = IF r.k # "pass" THEN r ELSE Acc
     /\ pc' = "done"
     /\ UNCHANGED <<case, stage, groups, all, ei>>
@@ -219,7 +293,7 @@ Spec == Init /\ [][Next]_vars
 
 -----------------------------------------------------------------------------
 Done == pc = "done"
-Functional == Done => out = M_Outcome(SymTab, case, Variant)
+Functional == (Done /\ Variant = NV) => out = M_Outcome(SymTab, case, NV)
 \* the statement, nothing masked
 Contract == Done => Failed(SymTab, case, out) = {}
 \* every departure from the statement is a finding of K
